@@ -313,6 +313,12 @@ structure TotalOrder {α : Type} (cmp : α → α → Ordering) : Prop where
   gt_iff : ∀ a b, cmp a b = .gt ↔ cmp b a = .lt
   lt_trans : ∀ a b c, cmp a b = .lt → cmp b c = .lt → cmp a c = .lt
 
+/-- The hypothesis is satisfiable: the order on ranks used by the driver. -/
+theorem natCmp_total : TotalOrder (fun a b : Nat => compare a b) where
+  eq_iff := by intro a b; simp
+  gt_iff := by intro a b; rw [Nat.compare_eq_gt, Nat.compare_eq_lt]
+  lt_trans := by intro a b c; simp only [Nat.compare_eq_lt]; omega
+
 section
 variable {α : Type} {cmp : α → α → Ordering}
 
